@@ -245,7 +245,7 @@ def rewrite (s : State) (recs : List Rec) (txid : Nat) : State × Outcome Unit :
   if recs.isEmpty then (s, .ok ())
   else
     let nf := s.activeFid + 1
-    let s0 := { s with activeFid := nf, hintFid := 0, writeOff := 0, actualSize := 0, files := fileEnsure s.files nf }
+    let s0 := { s with activeFid := nf, hintFid := 0, writeOff := 0, actualSize := 0, files := fileEnsure s.files nf, activeUnlinked := false }
     -- `tx.Commit()`'s result is discarded by reWriteData
     let (s1, o) := commit s0 (recs.map fun r => { r with txid := txid, status := 0 })
     (s1, if o.isPanic then .panic else .ok ())
@@ -269,7 +269,8 @@ def merge (s : State) (now : Nat) (txids : List Nat) : State × Outcome Unit :=
             let (s1, o) := rewrite s recs (txids.headD 0)
             if o.isPanic then (s1, .panic)
             else
-              let s2 := { s1 with files := s1.files.filter (·.fid != fid) }
+              -- removing the file that is still `db.ActiveFile` leaves the handle on an unlinked file
+              let s2 := { s1 with files := s1.files.filter (·.fid != fid), activeUnlinked := s1.activeUnlinked || fid == s1.activeFid }
               go s2 rest (if recs.isEmpty then txids else txids.drop 1)
     go s (s.files.map (·.fid)) txids
 
